@@ -480,6 +480,12 @@ impl Subject for SFobN {
             Err(f) => PushRes::Refused(f.id),
         }
     }
+    fn extend(&mut self, ids: &[u32]) -> Option<()> {
+        let v: Vec<NF> = ids.iter().map(|&i| NF::new(i)).collect();
+        let it = v.into_iter().filter(|_| true);
+        in_crate(|| self.0.extend(it));
+        Some(())
+    }
     fn obs(&self) -> Obs {
         in_crate(|| Obs {
             len: Some(self.0.len()),
